@@ -78,7 +78,7 @@ def sd_to_scenario(sd):
     return Scenario(sd_to_dict(sd), name="verif")
 
 
-def scenario_to_sd(sc):
+def scenario_to_sd(sc, strict_keys=False):
     """nasim Scenario (loaded or generated) -> SD; names become positions."""
     osn, srvn, procn = list(sc.os), list(sc.services), list(sc.processes)
     oi = {n: i for i, n in enumerate(osn)}
@@ -95,15 +95,19 @@ def scenario_to_sd(sc):
                            prob=float(p["prob"]), cost=p["cost"], acc=int(p["access"]))
                       for p in sc.privescs.values()]
     sd["costs"] = (sc.service_scan_cost, sc.os_scan_cost, sc.subnet_scan_cost, sc.process_scan_cost)
-    sd["fw"] = {(int(k[0]), int(k[1])): sorted(si[s] for s in v) for k, v in sc.firewall.items()}
+    sd["fw"] = {(int(k[0]), int(k[1])): (sorted(si[s] for s in v) if isinstance(v, (set, frozenset))
+                                         else [si[s] for s in v]) for k, v in sc.firewall.items()}
     hosts = []
     for a, h in sc.hosts.items():
         hfw = {}
         for k, v in h.firewall.items():
             if not isinstance(k, tuple):
-                # the file's key as written, read independently of the loader
-                import ast
-                k = ast.literal_eval(k)
+                if strict_keys:
+                    k = (-7, -7)     # not an address: visible to the loader correspondence
+                else:
+                    # the file's key as written, read independently of the loader
+                    import ast
+                    k = ast.literal_eval(k)
             hfw[(int(k[0]), int(k[1]))] = [si[s] for s in v]
         hosts.append(((int(a[0]), int(a[1])),
                       dict(os=[bool(h.os[n]) for n in osn], srv=[bool(h.services[n]) for n in srvn],
